@@ -428,7 +428,30 @@ def d3_maps(prog, rep):
         rets = f.return_values()
         ok = len(rets) == 1 and tag(rets[0]) == 'call' and rets[0][1] == M + '::new' and _is_transpose_of_self(rets[0][2][0], me) \
             and strip_casts(rets[0][2][1]) == ('field', me, 2, 'usize') and strip_casts(rets[0][2][2]) == ('field', me, 1, 'usize')
-        (rep.ok if ok else rep.viol)('map-signature', key, 't() = Matrix::new(transpose(data, nrows), ncols, nrows)' if ok else 't() is %s' % [show(r) for r in rets], site_of(f.body))
+        if ok:
+            rep.ok('map-signature', key, 't() = Matrix::new(transpose(data, nrows), ncols, nrows)')
+        else:
+            # a refutation needs the written form: Matrix::new(<buffer>, <dim>, <dim>) whose dims are the two fields in
+            # the wrong order, or whose buffer is a readable transpose call with the wrong row count / the untransposed buffer
+            Rf, Cf = ('field', me, 1, 'usize'), ('field', me, 2, 'usize')
+            definite = None
+            if len(rets) == 1 and tag(rets[0]) == 'call' and rets[0][1] == M + '::new' and len(rets[0][2]) == 3:
+                d1, d2 = strip_casts(rets[0][2][1]), strip_casts(rets[0][2][2])
+                buf = rets[0][2][0]
+                while tag(buf) == 'call' and short(buf[1]) in ('new', 'from', 'into', 'clone') and buf[2]:
+                    buf = buf[2][0]
+                if {d1, d2} <= {Rf, Cf} and (d1, d2) != (Cf, Rf):
+                    definite = 'dims (%s, %s), not (ncols, nrows)' % (show(d1), show(d2))
+                elif (d1, d2) == (Cf, Rf) and tag(buf) == 'call' and buf[1].endswith('utils::transpose') and len(buf[2]) == 2 \
+                        and strip_casts(buf[2][1]) in (Rf, Cf) and buf[2][0] == ('field', me, 0, 'linalg::array::vec::Vector') and strip_casts(buf[2][1]) != Rf:
+                    definite = 'buffer transposed with row count %s' % show(buf[2][1])
+                elif (d1, d2) == (Cf, Rf) and buf == ('field', me, 0, 'linalg::array::vec::Vector'):
+                    definite = 'buffer copied without transposition'
+            if definite:
+                rep.viol('map-signature', key, 't() is %s: %s' % ([show(r)[:90] for r in rets], definite), site_of(f.body))
+            else:
+                rep.undecided('map-signature', key, 't() is not in the read form Matrix::new(transpose(data, nrows), ncols, nrows): %s' % [show(r)[:90] for r in rets],
+                              site_of(f.body), proof=False)
     f = prog.func(M + '::get_col_as_vector')
     key = 'map-signature:%s::get_col_as_vector' % M
     if f is not None:
